@@ -97,6 +97,8 @@ class C04(PropBase):
                 violation = "judgement record not canonical / does not carry the arguments"
         if mut1 or mut2:
             violation = violation or "are_d_separated modified the caller's graph"
+        if violation is None:       # the same query with the variables called otherwise (names with a leading digit, digits inside, underscores)
+            violation = GG.renamed_differs(case, o1, lambda: call(g, a, b, C)[0])
         # skeleton-connected?
         adj = {}
         for u, v in g["dir"] + g["bid"]:
